@@ -2,11 +2,20 @@
    correspondence driver.  ExtrOcamlBasic only: N, Z, positive, nat stay the
    extracted inductives (no mapping to OCaml int). Compiled from
    /verif/build/extract so that the .ml files land there. *)
-From Coq Require Import Extraction ExtrOcamlBasic NArith ZArith List.
-From FitV Require Import Model.Values Model.Crc Spec.CrcSpec.
+From Coq Require Import Extraction ExtrOcamlBasic NArith ZArith List String.
+From FitV Require Import Model.Values Model.Crc Spec.CrcSpec Model.Bytes Model.Base Model.Profile
+  Model.Reflect Model.IO Model.Header Model.Components Model.Route Model.Decode.
+From FitV Require Import Gen.RoutingData Gen.ProfileData.
 
 Extraction Language OCaml.
 Extraction "fitmodel.ml"
   Crc.update_byte Crc.update Crc.checksum Crc.crc_new Crc.crc_write Crc.crc_sum16 Crc.crc_reset
   CrcSpec.arc_step CrcSpec.arc CrcSpec.lo8 CrcSpec.hi8
-  Z.add N.add Nat.add.
+  Z.add N.add Nat.add
+  Decode.entry_Decode Decode.entry_CheckIntegrity Decode.entry_DecodeHeader Decode.entry_DecodeHeaderAndFileID Decode.entry_DecodeChained
+  Decode.validate_field_def Decode.is_integrity Decode.no_opts
+  Route.ft_entry Route.file_init Route.file_add Route.new_file Route.accessor_ok Route.file_type
+  Components.expand_components Components.g_init Components.accumulate Components.new_accum
+  Header.header_marshal Header.header_check_integrity Header.new_header
+  Profile.mesg_all_invalid Profile.get_field Profile.known_msg
+  RoutingData.accessors.
